@@ -17,6 +17,7 @@ import (
 	rast "github.com/gardenbed/emerge/internal/regex/parser/ast"
 	"github.com/gardenbed/emerge/internal/regex/parser/nfa"
 	"github.com/gardenbed/emerge/verif/ev"
+	"github.com/gardenbed/emerge/verif/ref/cliref"
 	"github.com/gardenbed/emerge/verif/ref/regexref"
 )
 
@@ -405,7 +406,8 @@ func main() {
 	r.Finish()
 }
 
-var cliArgs = []string{"-out=OUT", "-out", "-name=pkg", "-name=", "-debug", "-verbose", "-help", "-h", "-version", "-bogus", "--", "valid.grammar", "invalid.grammar", "missing.grammar", "adir", "valid.grammar/x", "-out=valid.grammar", "-name=if"}
+var cliArgs = []string{"-out=OUT", "-out", "-name=pkg", "-name=", "-debug", "-verbose", "-help", "-h", "-version", "-bogus", "--", "valid.grammar", "invalid.grammar", "missing.grammar", "adir", "valid.grammar/x", "-out=valid.grammar", "-name=if",
+	"-", "-x.grammar", "--name", "-debug=maybe", "-help=false", "-=x", "---", "-name=int"}
 
 func cli(r *ev.Run, lines [][]string) {
 	if len(lines) == 0 {
@@ -432,6 +434,33 @@ func cli(r *ev.Run, lines [][]string) {
 		_ = os.MkdirAll(filepath.Join(dir, "adir"), 0o755)
 		_ = os.WriteFile(filepath.Join(dir, "valid.grammar"), []byte("grammar demo ;\nNUM = /[0-9]+/ ;\nstart = NUM \"+\" NUM ;\n"), 0o644)
 		_ = os.WriteFile(filepath.Join(dir, "invalid.grammar"), []byte("grammar demo ;\nstart = = ;\n"), 0o644)
+		// what the documented command line asks for (reference model of the flag syntax)
+		model := cliref.Parse(args)
+		expect := "fail" // "ok-generate", "ok-info", "fail", "either"
+		switch {
+		case model.FlagError:
+		case model.Help || model.Version:
+			expect = "ok-info"
+		case !model.HasFile:
+		case model.File == "valid.grammar":
+			name := model.Name
+			if name == "" {
+				name = "demo"
+			}
+			out := model.Out
+			if out == "" {
+				out = "."
+			}
+			st, err := os.Stat(filepath.Join(dir, out))
+			_, perr := os.Lstat(filepath.Join(dir, out, name))
+			switch {
+			case err != nil || !st.IsDir() || perr == nil:
+			case cliref.NameClass(name) == "usable":
+				expect = "ok-generate"
+			case cliref.NameClass(name) == "predeclared":
+				expect = "either"
+			}
+		}
 		cmd := exec.Command(bin, args...)
 		cmd.Dir = dir
 		cmd.Env = append(os.Environ(), "NO_COLOR=1", "TERM=dumb")
@@ -469,8 +498,21 @@ func cli(r *ev.Run, lines [][]string) {
 		case code != 0 && strings.TrimSpace(se.String()) == "":
 			r.Report("", fmt.Sprintf("emerge %q exits with status %d without any message on stderr (stdout: %s)", args, code, head(so.String())), in)
 		}
+		announced := strings.Contains(all, "Successful")
+		switch {
+		case code < 0:
+		case expect == "fail" && (code == 0 || announced):
+			r.Report("", fmt.Sprintf("emerge %q must fail with a message (the command line names no acceptable specification to generate from, or is malformed) but exits with status %d, success announced: %v\nstdout: %s\nstderr: %s", args, code, announced, head(so.String()), head(se.String())), in)
+		case expect == "ok-info" && (code != 0 || announced || strings.TrimSpace(all) == ""):
+			r.Report("", fmt.Sprintf("emerge %q asks for help/version: expected status 0 and the text, got status %d, success announced: %v, output %q", args, code, announced, head(all)), in)
+		case expect == "ok-generate" && (code != 0 || !announced):
+			r.Report("", fmt.Sprintf("emerge %q names a valid specification, an existing output directory and a usable name but exits with status %d, success announced: %v\nstderr: %s", args, code, announced, head(se.String())), in)
+		case (code == 0) != (announced || expect == "ok-info"):
+			r.Report("", fmt.Sprintf("emerge %q: exit status %d but success announced: %v", args, code, announced), in)
+		}
+		r.Add("command_lines_expect_"+expect, 1)
 		if i%701 == 0 {
-			r.Sample(map[string]any{"args": args, "exit": code, "stderr": head(se.String())})
+			r.Sample(map[string]any{"args": args, "exit": code, "expected": expect, "stderr": head(se.String())})
 		}
 	}
 }
